@@ -105,7 +105,13 @@ class GenElab:
                 if name in used:
                     continue
                 used.add(name)
-                if name == "p":
+                if name == "p" and bases and "p" in inherited and rng.random() < 0.5:
+                    # @Base.p.setter / .deleter / .getter: one accessor re-defined on the inherited property
+                    for acc in rng.sample(["get", "set", "del"], rng.choice([1, 1, 2])):
+                        m = self.member("p", acc, snap_pool=snap_pool)
+                        m["inherit"] = True
+                        members.append(m)
+                elif name == "p":
                     for acc in rng.sample(["get", "set", "del"], rng.choice([1, 2, 3])):
                         if acc != "get" and not any(m["name"] == "p" and m["kind"] == "get" for m in members):
                             members.append(self.member("p", "get", snap_pool=snap_pool))
@@ -183,12 +189,12 @@ def py_member(m, ind, lines_out):
         head.append(ind + "@staticmethod")
     elif m["kind"] == "classm":
         head.append(ind + "@classmethod")
-    elif m["kind"] == "get":
+    elif m["kind"] == "get" and not m.get("inherit"):
         head.append(ind + "@property")
-    elif m["kind"] == "set":
-        head.append(ind + "@%s.setter" % name)
-    elif m["kind"] == "del":
-        head.append(ind + "@%s.deleter" % name)
+    elif m["kind"] in ("get", "set", "del"):
+        # the property in the class body if there is one already, else the one of the first base
+        owner = "%s.%s" % (m["inherit_from"], name) if m.get("inherit_from") else name
+        head.append(ind + "@%s.%s" % (owner, {"get": "getter", "set": "setter", "del": "deleter"}[m["kind"]]))
     adef = "async def" if m["async"] else "def"
     body = "return None"
     if name == "__new__":
@@ -205,7 +211,12 @@ def py_op(i, op, class_names):
         helpers, lines = py_member(m, "", L)
         return "\n".join(helpers + lines) + "\n"
     helpers_all, body = [], []
+    seen_names = set()
     for m in op["members"]:
+        m = dict(m)
+        if m.get("inherit") and m["name"] not in seen_names and op["bases"]:
+            m["inherit_from"] = class_names[op["bases"][0]]
+        seen_names.add(m["name"])
         helpers, lines = py_member(m, "    ", L)
         helpers_all += [h.lstrip() for h in helpers]
         body += lines
@@ -264,9 +275,9 @@ def cq_member(m, toplevel=False):
     if m["name"] == "__new__" and not toplevel:
         recv = "cls"
     fsig = render_checker.with_receiver(m["sig"], recv)
-    return "{| md_name := %s; md_kind := %s; md_async := %s; md_sig := %s; md_decos := %s |}" % (
+    return "{| md_name := %s; md_kind := %s; md_async := %s; md_sig := %s; md_decos := %s; md_inherit := %s |}" % (
         C.cq_str(m["name"]), MK[m["kind"]], C.cq_bool(m["async"]), GC.cq_sig(fsig),
-        C.cq_list([cq_deco(d) for d in m["decos"]]))
+        C.cq_list([cq_deco(d) for d in m["decos"]]), C.cq_bool(bool(m.get("inherit"))))
 
 
 def cq_op(op):
